@@ -432,7 +432,7 @@ class Command(Accessible):
         self.fixExport()
         self.datatype = CommandType(self.argument, self.result)
         if not self._inherit:
-            for key, pobj in self.properties.items():
+            for key, pobj in self.propertyDict.items():
                 if key not in self.propertyValues:
                     self.propertyValues[key] = pobj.default
 
